@@ -15,7 +15,9 @@ namespace Events
 open Reader
 
 inductive Frame where
-  | para | heading | quote | code | table
+  | para | heading | quote | code
+  /-- `cell` = a cell of the current row has been opened (inline content goes into it) -/
+  | table (cell : Bool)
   | list (hasItem : Bool)
   | item | html | metadata | inline
   deriving DecidableEq, Repr, Inhabited
@@ -27,11 +29,11 @@ def blockAllowed : List Frame → Bool
   | .item :: _ => true
   | _ => false
 
-/-- inline content: in a paragraph, heading, table (cells), inside another inline, and directly in a (tight) item -/
+/-- inline content: in a paragraph, heading, table cell (after `startCell`), inside another inline, and directly in a (tight) item -/
 def inlineAllowed : List Frame → Bool
   | .para :: _ => true
   | .heading :: _ => true
-  | .table :: _ => true
+  | .table true :: _ => true
   | .inline :: _ => true
   | .item :: _ => true
   | _ => false
@@ -51,7 +53,7 @@ def step (fs : List Frame) : Ev → Option (List Frame)
   | .startHeading _ _ _ => if blockAllowed fs then some (.heading :: fs) else none
   | .startQuote _ _ => if blockAllowed fs then some (.quote :: fs) else none
   | .startCode _ _ _ => if blockAllowed fs then some (.code :: fs) else none
-  | .startTable _ _ _ => if blockAllowed fs then some (.table :: fs) else none
+  | .startTable _ _ _ => if blockAllowed fs then some (.table false :: fs) else none
   | .startList _ => if blockAllowed fs then some (.list false :: fs) else none
   | .startHtml => if blockAllowed fs then some (.html :: fs) else none
   | .rule _ _ => if blockAllowed fs then some fs else none
@@ -60,14 +62,14 @@ def step (fs : List Frame) : Ev → Option (List Frame)
   | .endHeading => match fs with | .heading :: r => some r | _ => none
   | .endQuote => match fs with | .quote :: r => some r | _ => none
   | .endCode => match fs with | .code :: r => some r | _ => none
-  | .endTable => match fs with | .table :: r => some r | _ => none
+  | .endTable => match fs with | .table _ :: r => some r | _ => none
   | .endList => match fs with | .list true :: r => some r | _ => none     -- a list has at least one item
   | .endHtml => match fs with | .html :: r => some r | _ => none
   | .endMeta => match fs with | .metadata :: r => some r | _ => none
   | .startItem => match fs with | .list _ :: r => some (.item :: .list true :: r) | _ => none
   | .endItem => match fs with | .item :: r => some r | _ => none
-  | .startRow => match fs with | .table :: _ => some fs | _ => none
-  | .startCell => match fs with | .table :: _ => some fs | _ => none
+  | .startRow => match fs with | .table _ :: r => some (.table false :: r) | _ => none
+  | .startCell => match fs with | .table _ :: r => some (.table true :: r) | _ => none
   | .startInline _ _ _ => if inlineAllowed fs then some (.inline :: fs) else none
   | .endInline => match fs with | .inline :: r => some r | _ => none
   | .text _ _ _ => if textAllowed fs then some fs else none
